@@ -139,3 +139,21 @@ Example C05_source_writer_example :
     (ImpProofsI.node_of (Node (bs "r") zeroF [Node (bs "a b") (bs "1.5") []; Node (bs "c") zeroF []])) []
   = GoSem.Ret (bs "(a_b:1.5,c)r").
 Proof. vm_compute. reflexivity. Qed.
+
+From Bio.Proofs Require ImpProofsJ ImpProofsM.
+
+(* The tokeniser reader.nextToken as translated from newick.go (quoted strings with doubled
+   quotes ended by UnreadByte, punctuation as one-byte tokens or as the end of a name, white
+   space, the buffer r.b kept in the reader) answers, for every input and both terminal
+   conditions, like the model's next_token: the same token and the same bytes left unread,
+   io.EOF exactly at a clean end, an error exactly where the model has one. *)
+Theorem C05_next_token_is_source : forall fuel s tm r0, (length s + 1 < fuel)%nat ->
+  ImpProofsM.nt_agrees (ImpProofsJ.term_code tm) (next_token s tm)
+    (ImpGen.imp_newickrd_reader_nextToken fuel (GoSem.Stream s (ImpProofsJ.term_code tm) None) r0).
+Proof. exact ImpProofsM.imp_nextToken. Qed.
+Print Assumptions C05_next_token_is_source.
+
+Example C05_source_token_example :
+  ImpGen.imp_newickrd_reader_nextToken 20 (GoSem.Stream (bs " 'a''b',x") 1%Z None) (ImpGen.Imp_newickrd_reader [])
+  = GoSem.Ret (GoSem.Stream (bs ",x") 1%Z None, ImpGen.Imp_newickrd_reader (bs "'a''b'"), (bs "'a''b'", 0%Z)).
+Proof. vm_compute. reflexivity. Qed.
